@@ -32,7 +32,10 @@ GOROOT_PKG = os.path.join(REPO, "code/go/0chain.net")
 NCPU = os.cpu_count() or 4
 
 sys.path.insert(0, os.path.dirname(os.path.abspath(__file__)))
-from checks import CHECKS  # noqa: E402
+from checks import CHECKS, WIP  # noqa: E402
+
+if os.environ.get("VERIF_WIP"):
+    CHECKS = dict(CHECKS, **WIP)  # unclaimed work in progress, for development only
 
 
 def goenv():
@@ -185,7 +188,7 @@ def classify(res, part):
     return "inconclusive"
 
 
-def collect_replay(res, cid, idx, verif_seed):
+def collect_replay(res, cid, idx, verif_seed, tier="quick"):
     """Copy the rapid fail file (or, failing that, the output) to /verif/replays."""
     os.makedirs(REPLAYS, exist_ok=True)
     found = None
@@ -193,7 +196,8 @@ def collect_replay(res, cid, idx, verif_seed):
         for f in files:
             if f.endswith(".fail"):
                 found = os.path.join(root, f)
-    base = "%s-p%d-seed%d-shard%d" % (cid, idx, verif_seed, res["shard"])
+    # the tier is part of the name: generated sizes depend on it, so a replay must run under the same tier
+    base = "%s-p%d-seed%d-shard%d-%s" % (cid, idx, verif_seed, res["shard"], tier)
     if found:
         test = os.path.basename(os.path.dirname(found))
         dst = os.path.join(REPLAYS, "%s-%s.fail" % (base, re.sub(r"[^A-Za-z0-9_]", "_", test)))
@@ -320,7 +324,7 @@ def run_check(cid, tier, only_part=None, failfile=None):
                             i, res["shard"], res["rc"], kind, res["wall"], " ".join(res["cmd"])))
                         log.write(open(res["out"], errors="replace").read()[-20000:])
                         if kind == "violation":
-                            path = collect_replay(res, cid, i, verif_seed)
+                            path = collect_replay(res, cid, i, verif_seed, tier)
                             violations.append(path)
                             tail = open(res["out"], errors="replace").read()
                             m = re.findall(r"VERIF-VIOLATION[^\n]*", tail)
@@ -384,11 +388,12 @@ def run_check(cid, tier, only_part=None, failfile=None):
 
 def replay(path):
     name = os.path.basename(path)
-    m = re.match(r"(C\d+)-p(\d+)-seed(\d+)-shard(\d+)", name)
+    m = re.match(r"(C\d+)-p(\d+)-seed(\d+)-shard(\d+)(?:-(quick|thorough))?", name)
     if not m:
         say("cannot parse replay file name %s" % name)
         return 2
     cid, idx, seed, shard = m.group(1), int(m.group(2)), int(m.group(3)), int(m.group(4))
+    tier = m.group(5) or os.environ.get("VERIF_REPLAY_TIER", "quick")
     cfg = CHECKS[cid]
     part = cfg["parts"][idx]
     workdir = tempfile.mkdtemp(prefix="verif-replay-")
@@ -398,9 +403,11 @@ def replay(path):
         with open(os.path.join(workdir, "log"), "w") as log:
             binary = compile_part(part, harness_dir, overlay, workdir, idx, log)
         env = goenv()
-        env.update({"VERIF_WORKDIR": os.path.join(workdir, "wd"), "VERIF_SEED": str(seed), "VERIF_TIER": "quick",
+        env.update({"VERIF_WORKDIR": os.path.join(workdir, "wd"), "VERIF_SEED": str(seed), "VERIF_TIER": tier,
                     "VERIF_SHARD": str(shard), "VERIF_PROPERTY": cid})
         for k, v in (part.get("env") or {}).items():
+            env[k] = str(v)
+        for k, v in (part.get("env_" + tier) or {}).items():
             env[k] = str(v)
         if part.get("race"):
             env["GORACE"] = "halt_on_error=1 exitcode=66"
